@@ -49,7 +49,6 @@ var notBuilt = map[string]string{
 	"C28": "not built yet: world W3",
 	"C29": "not built yet: world W3",
 	"C30": "not built yet: world W3",
-	"C38": "not built yet: world W2 (conf watcher with fake fsnotify and clock)",
 	"C43": "not built: world W5 (real HLS server on a simulated transport) was not built; see DESIGN.md",
 }
 
